@@ -111,6 +111,9 @@ def strategy(tier):
         "dims": st.lists(dim, min_size=3, max_size=3),
         "init": st.lists(new, min_size=1, max_size=3),
         "ops": st.one_of(st.lists(anyop, min_size=1, max_size=12), st.lists(anyop, min_size=8, max_size=12)),
+        # common magnitude of all generated vectors: a carrier of 1e-10-sized vectors must represent its (1e-20-sized)
+        # matrix as faithfully, relative to that size, as one of order one
+        "vscale": st.sampled_from([1.0, 1.0, 1.0, 1.0, 1e-6, 1e-10, 1e4]),
         "payload_seed": st.integers(0, 2 ** 31 - 1)})
 
 
@@ -451,6 +454,10 @@ class _Run:
         else:
             us = [_vec(rng, kinds_u[k], n) for k in range(nd)]
             vs = [_vec(rng, kv[k], m) for k in range(nd)]
+        vsc = float(self.case.get("vscale", 1.0))
+        if vsc != 1.0:
+            us, vs = [u * vsc for u in us], [v * vsc for v in vs]
+            self.labels.add(f"vscale:{vsc:g}")
         ks = set(kinds_u) | set(kv)
         if ks & {"r", "q", "z"} and ks & {"c", "i", "cr", "zc"}:
             self.mixed()
